@@ -6,6 +6,7 @@ import (
 	"fmt"
 	iofs "io/fs"
 	"os"
+	"strings"
 	"testing"
 	"time"
 
@@ -52,6 +53,22 @@ func genC19(t *rapid.T) any {
 			f.BS = rapid.SampledFrom([]int64{4096, 131072}).Draw(t, "sqbs")
 			f.Sq = genSqOpts(t)
 			f.Tree = sqSafeTree("C19", dedupeTree(genTree(t, treeOpts{maxEntries: 16, maxDepth: 5, unit: 4096, names: "posix", symlinks: true, meta: true})))
+			if rapid.IntRange(0, 2).Draw(t, "longLinks") == 0 {
+				// a few symlinks with targets of kilobytes in the root directory: their inodes are cut by the 8 KiB
+				// metadata-block boundary of the inode table at positions that a small tree never reaches
+				used := map[string]bool{}
+				for _, e := range f.Tree {
+					used[e.Path] = true
+				}
+				for i := 0; i < rapid.IntRange(2, 4).Draw(t, "nLongLinks"); i++ {
+					p := fmt.Sprintf("long-link-%d", i)
+					if used[p] {
+						continue
+					}
+					ln := rapid.SampledFrom([]int{2500, 4000, 4095, 3000}).Draw(t, "longLinkLen")
+					f.Tree = append(f.Tree, mk.Entry{Path: p, Kind: mk.KLink, Target: strings.Repeat(string(rune('a'+i)), ln)})
+				}
+			}
 		}
 		f.Size = 8 << 20
 		c.Fin = f
@@ -216,7 +233,7 @@ func execC19Fin(f *finCase, r *hx.Result) {
 				return
 			}
 		}
-	}	// the same attributes as an independent reader of the format sees them (what is stored, not what the
+	} // the same attributes as an independent reader of the format sees them (what is stored, not what the
 	// library's reader makes of it): squashfs inode header fields, Rock Ridge PX / TF / SL fields
 	type raw struct {
 		mode  uint32
